@@ -141,3 +141,25 @@ def be_smt(I, x, n):
 
 
 REG.spec("be", be_smt, lambda x, n: int(x).to_bytes(n, "big"), "big-endian encoding of x in n octets")
+
+
+def kpos_of_smt(I, d):
+    """ghost: the position array of a dict's keys in its iteration order"""
+    from .sym import SMap
+    from . import models as M
+
+    if not isinstance(d, SMap):
+        raise Unsupported("kpos_of: symbolic dict expected")
+    if d.keys is None:
+        M.attach_key_order(I, d, "d")
+    return _ArrView(d.kpos)
+
+
+class _ArrView:
+    """indexable ghost array (Int -> Int) usable in clauses as a[k]"""
+
+    def __init__(self, arr):
+        self.arr = arr
+
+
+REG.spec("kpos_of", kpos_of_smt, lambda d: {k: i for i, k in enumerate(d)}, "position of each key in the dict's iteration order")
